@@ -47,8 +47,11 @@ def run(tier, seed, open_findings):
         }
         fails = []; n = 0
         main = os.path.join(base, 'main.xsd')
-        for mode, mech, (sp, loc) in itertools.product(['all', 'none', 'local', 'remote', 'sandbox'], ['include', 'import', 'redefine', 'hint'], SPELL.items()):
-            n += 1
+        combos = [(m_, me, sl, True) for m_, me, sl in itertools.product(['all', 'none', 'local', 'remote', 'sandbox'], ['include', 'import', 'redefine', 'hint'], SPELL.items())]
+        # the sandbox root taken from the location of the main schema (no explicit base_url): every reference mechanism must inherit it
+        combos += [('sandbox', me, sl, False) for me, sl in itertools.product(['include', 'import', 'redefine'], SPELL.items())]
+        for mode, mech, (sp, loc), with_base in combos:
+            n += 1; bkw = dict(base_url=base) if with_base else {}
             tag = {'include': f'<xs:include schemaLocation="{loc}"/>', 'redefine': f'<xs:redefine schemaLocation="{loc}"/>', 'hint': '',
                    'import': f'<xs:import namespace="urn:i" schemaLocation="{loc.replace("inc.xsd", "imp.xsd")}"/>'}[mech]
             open(main, 'w').write(f'<xs:schema {XS}>{tag}<xs:element name="r"><xs:complexType><xs:sequence><xs:any minOccurs="0" processContents="lax"/></xs:sequence>'
@@ -56,7 +59,7 @@ def run(tier, seed, open_findings):
             _events.clear(); outcome = 'ok'
             try:
                 opener = urllib.request.build_opener(Stub)
-                s = xmlschema.XMLSchema10(main, allow=mode, base_url=base, opener=opener)
+                s = xmlschema.XMLSchema10(main, allow=mode, opener=opener, **bkw)
                 if mech == 'hint':
                     doc = (f'<r xmlns:xsi="http://www.w3.org/2001/XMLSchema-instance" xmlns:i="urn:i" xsi:schemaLocation="urn:i {loc.replace("inc.xsd", "imp.xsd")}"><i:y/></r>')
                     docp = os.path.join(base, 'doc.xml'); open(docp, 'w').write(doc)
@@ -68,7 +71,7 @@ def run(tier, seed, open_findings):
             viol = [(k, p) for k, p in fetched if not allowed(mode, 'open' if k == 'open' else 'remote', p, base)]
             if any(k == 'open' and p in own for k, p in _events) and not allowed(mode, 'open', main, base): viol.append(('open', 'MAIN'))
             if viol or outcome.startswith('OTHER'):
-                fails.append(dict(case=dict(mode=mode, mechanism=mech, spelling=sp, location=loc.replace(root, '<root>')), observed=dict(outcome=outcome, fetched=[(k, p.replace(root, '<root>')) for k, p in viol]),
+                fails.append(dict(case=dict(mode=mode, mechanism=mech, spelling=sp, location=loc.replace(root, '<root>'), explicit_base_url=with_base), observed=dict(outcome=outcome, fetched=[(k, p.replace(root, '<root>')) for k, p in viol]),
                                   required='no fetch outside the allowed class; only library exceptions'))
         # document-level API: the schema is built by the API itself from the instance's location hint, with the caller's allow mode
         hint_doc = os.path.join(base, 'hinted.xml')
